@@ -220,7 +220,14 @@ func main() {
 		}
 		if !zsimrt.Instrumented {
 			// degraded mode: the Go scheduler picks the interleaving; repeat the scenario a few times
-			for rep := 0; rep < 7 && o.Viol == nil; rep++ {
+			reps := 7
+			if sc.Giant {
+				reps = 1
+			}
+			for rep := 0; rep < reps && o.Viol == nil; rep++ {
+				if *budgetMS > 0 && time.Since(start).Milliseconds() >= *budgetMS*2 {
+					break
+				}
 				o = runScenario(sc, r, nil)
 			}
 		}
